@@ -29,6 +29,156 @@ type extractor struct {
 	funcsAll  map[string][]*ast.FuncDecl
 	mapFields map[string]bool
 	mapFuncs  map[string]bool // package funcs returning a map
+	files     []*ast.File
+}
+
+// ---- names of owned objects ------------------------------------------------------------------
+// The Name expression of every object handed to CreateOrUpdate is resolved to the form
+// `<cluster>.Name ++ "<literal suffix>"` (fmt.Sprintf("%s-suffix", cluster.Name), cluster.Name + "-suffix",
+// a one-line helper returning such an expression, or a field of a struct parameter whose value is
+// given at every call site of the enclosing function by such an expression).  Anything else — a helper
+// that cuts, trims, hashes or otherwise computes the name — is form `other`.
+type nameForm struct{ form, suffix, text string }
+
+func paramIndex(fd *ast.FuncDecl, name string) (int, string) {
+	i := 0
+	for _, f := range fd.Type.Params.List {
+		for _, n := range f.Names {
+			if n.Name == name {
+				var b bytes.Buffer
+				_ = printer.Fprint(&b, token.NewFileSet(), f.Type)
+				return i, b.String()
+			}
+			i++
+		}
+		if len(f.Names) == 0 {
+			i++
+		}
+	}
+	return -1, ""
+}
+
+func (x *extractor) isClusterName(e ast.Expr, fd *ast.FuncDecl) bool {
+	sel, ok := e.(*ast.SelectorExpr)
+	if !ok || sel.Sel.Name != "Name" {
+		return false
+	}
+	id, ok := sel.X.(*ast.Ident)
+	if !ok {
+		return false
+	}
+	i, typ := paramIndex(fd, id.Name)
+	return i >= 0 && strings.Contains(typ, "KafscaleCluster")
+}
+
+func strLit(e ast.Expr) (string, bool) {
+	if l, ok := e.(*ast.BasicLit); ok && l.Kind == token.STRING {
+		if v, err := strconv.Unquote(l.Value); err == nil {
+			return v, true
+		}
+	}
+	return "", false
+}
+
+func (x *extractor) enclosing(pos token.Pos) *ast.FuncDecl {
+	for _, f := range x.files {
+		for _, d := range f.Decls {
+			if fd, ok := d.(*ast.FuncDecl); ok && fd.Body != nil && fd.Pos() <= pos && pos <= fd.End() {
+				return fd
+			}
+		}
+	}
+	return nil
+}
+
+func (x *extractor) resolveName(e ast.Expr, fd *ast.FuncDecl, depth int) []nameForm {
+	other := []nameForm{{"other", "", x.text(e)}}
+	if depth > 4 || e == nil || fd == nil {
+		return other
+	}
+	switch v := e.(type) {
+	case *ast.ParenExpr:
+		return x.resolveName(v.X, fd, depth)
+	case *ast.BinaryExpr:
+		if v.Op == token.ADD && x.isClusterName(v.X, fd) {
+			if s, ok := strLit(v.Y); ok {
+				return []nameForm{{"concat", s, x.text(e)}}
+			}
+		}
+	case *ast.CallExpr:
+		if sel, ok := v.Fun.(*ast.SelectorExpr); ok {
+			if id, ok := sel.X.(*ast.Ident); ok && id.Name == "fmt" && sel.Sel.Name == "Sprintf" && len(v.Args) == 2 {
+				if f, ok := strLit(v.Args[0]); ok && strings.HasPrefix(f, "%s") && !strings.Contains(f[2:], "%") && x.isClusterName(v.Args[1], fd) {
+					return []nameForm{{"concat", f[2:], x.text(e)}}
+				}
+			}
+			return other
+		}
+		if id, ok := v.Fun.(*ast.Ident); ok && len(x.funcsAll[id.Name]) == 1 {
+			h := x.funcsAll[id.Name][0]
+			// a one-line helper over the cluster: `func h(cluster *KafscaleCluster) string { return <expr> }`
+			if h.Recv == nil && h.Body != nil && len(h.Body.List) == 1 && len(v.Args) == 1 {
+				if _, isId := v.Args[0].(*ast.Ident); isId {
+					if _, typ := paramIndex(fd, v.Args[0].(*ast.Ident).Name); strings.Contains(typ, "KafscaleCluster") {
+						if ret, ok := h.Body.List[0].(*ast.ReturnStmt); ok && len(ret.Results) == 1 {
+							out := x.resolveName(ret.Results[0], h, depth+1)
+							for i := range out {
+								out[i].text = x.text(e) + " = " + out[i].text
+							}
+							return out
+						}
+					}
+				}
+			}
+		}
+	case *ast.SelectorExpr:
+		// a field of a struct parameter: look at every call site of the enclosing function
+		if id, ok := v.X.(*ast.Ident); ok {
+			pi, _ := paramIndex(fd, id.Name)
+			if pi < 0 {
+				return other
+			}
+			var out []nameForm
+			for _, f := range x.files {
+				ast.Inspect(f, func(n ast.Node) bool {
+					call, ok := n.(*ast.CallExpr)
+					if !ok {
+						return true
+					}
+					cid, ok := call.Fun.(*ast.Ident)
+					if !ok || cid.Name != fd.Name.Name || fd.Recv != nil {
+						return true
+					}
+					if pi >= len(call.Args) {
+						out = append(out, nameForm{"other", "", x.text(call)})
+						return true
+					}
+					cl, ok := call.Args[pi].(*ast.CompositeLit)
+					var val ast.Expr
+					if ok {
+						for _, el := range cl.Elts {
+							if kv, ok := el.(*ast.KeyValueExpr); ok {
+								if k, ok := kv.Key.(*ast.Ident); ok && k.Name == v.Sel.Name {
+									val = kv.Value
+								}
+							}
+						}
+					}
+					if val == nil {
+						out = append(out, nameForm{"other", "", x.text(call.Args[pi])})
+						return true
+					}
+					out = append(out, x.resolveName(val, x.enclosing(call.Pos()), depth+1)...)
+					return true
+				})
+			}
+			if len(out) == 0 {
+				return other
+			}
+			return out
+		}
+	}
+	return other
 }
 
 func (x *extractor) text(n ast.Node) string {
@@ -388,6 +538,7 @@ func extract(repo string) int {
 			}
 		}
 	}
+	x.files = files
 	idx := 0
 	for _, f := range files {
 		for _, d := range f.Decls {
@@ -397,6 +548,7 @@ func extract(repo string) int {
 			}
 			// object variable -> (type, name expression) from `v := &pkg.Type{ObjectMeta: ...{Name: e}}`
 			types := map[string][2]string{}
+			nameExprs := map[string]ast.Expr{}
 			ast.Inspect(fd.Body, func(n ast.Node) bool {
 				as, ok := n.(*ast.AssignStmt)
 				if !ok || len(as.Lhs) != 1 || len(as.Rhs) != 1 {
@@ -423,6 +575,7 @@ func extract(repo string) int {
 					if kv, ok := m.(*ast.KeyValueExpr); ok {
 						if k, ok := kv.Key.(*ast.Ident); ok && k.Name == "Name" && nameExpr == "?" {
 							nameExpr = x.text(kv.Value)
+							nameExprs[id.Name] = kv.Value
 						}
 					}
 					return true
@@ -465,6 +618,9 @@ func extract(repo string) int {
 					for _, im := range x.impurities(fn.Body) {
 						fmt.Printf("impure %d %s\n", idx, strconv.Quote(im))
 					}
+				}
+				for _, nf := range x.resolveName(nameExprs[obj], fd, 0) {
+					fmt.Printf("name %d %s %s %s\n", idx, nf.form, strconv.Quote(nf.suffix), strconv.Quote(nf.text))
 				}
 				fmt.Printf("end %d\n", idx)
 				idx++
